@@ -232,7 +232,7 @@ func ruleOneKeyer(c *Ctx, rule string) {
 	for fn := range c.A.Reach {
 		instrsOf(fn, func(in ssa.Instruction) {
 			call := callOf(in)
-			if call == nil || !call.IsInvoke() || call.Method.Name() != "URLKey" {
+			if call == nil || !call.IsInvoke() || !isURLKeyerMethod(call) {
 				return
 			}
 			ci := in.(ssa.CallInstruction)
@@ -271,7 +271,7 @@ func ruleOneKeyer(c *Ctx, rule string) {
 				if len(args) == 0 {
 					return
 				}
-				ok := c.An.dependsOnCallFull(args[0], func(cc *ssa.Call) bool { return cc.Call.IsInvoke() && cc.Call.Method.Name() == "URLKey" })
+				ok := c.An.dependsOnCallFull(args[0], func(cc *ssa.Call) bool { return cc.Call.IsInvoke() && isURLKeyerMethod(&cc.Call) })
 				where := c.P.ShortName(fn) + "@" + c.P.InstrPos(in)
 				if ok {
 					c.Pass(rule, "index-key-from-keyer "+role+" fn="+c.P.ShortName(fn), "the index key comes from the key function", where)
@@ -388,4 +388,16 @@ func ruleC03_6(c *Ctx) {
 		}
 	}
 	c.Pass("C03.6", "hex-alphabet", desc, alph...)
+}
+
+// isURLKeyerMethod: an interface method with the URL keyer's shape: func(*url.URL) string.
+func isURLKeyerMethod(c *ssa.CallCommon) bool {
+	if c == nil || !c.IsInvoke() {
+		return false
+	}
+	sig, ok := c.Method.Type().(*types.Signature)
+	if !ok || sig.Params().Len() != 1 || sig.Results().Len() != 1 {
+		return false
+	}
+	return ptrTo(sig.Params().At(0).Type(), "net/url", "URL") && isStringType(sig.Results().At(0).Type())
 }
